@@ -11,6 +11,7 @@ import (
 
 	"github.com/dave/dst/decorator/resolver"
 	"github.com/dave/dst/decorator/resolver/gobuild"
+	"github.com/dave/dst/decorator/resolver/gopackages"
 	"github.com/dave/dst/decorator/resolver/guess"
 	"github.com/dave/dst/decorator/resolver/simple"
 )
@@ -138,10 +139,14 @@ const (
 	KindGuess           // guess.New(): names guessed from the path
 	KindHints           // gobuild.WithHints(truth) (stub finder never consulted)
 	NumKinds
+	// KindGopackagesHints is gopackages.WithHints(truth): read-only as long as every lookup is
+	// answered from the hints (anything else would run `go list`), so only engines that guarantee
+	// that use it; it is not part of the 0..NumKinds-1 range engines draw from.
+	KindGopackagesHints = NumKinds
 )
 
 func KindName(k int) string {
-	return [...]string{"guess.WithMap", "simple.New", "gobuild(stub finder)", "guess.New", "gobuild.WithHints"}[k]
+	return [...]string{"guess.WithMap", "simple.New", "gobuild(stub finder)", "guess.New", "gobuild.WithHints", "gopackages.WithHints"}[k]
 }
 
 // ErrStubNotFound is what the stub finder returns for unknown paths.
@@ -174,6 +179,8 @@ func NameResolver(kind int, m map[string]string) resolver.RestorerResolver {
 		return r
 	case KindGuess:
 		return guess.New()
+	case KindGopackagesHints:
+		return gopackages.WithHints("/sim", m)
 	case KindHints:
 		r := gobuild.WithHints("/sim", m)
 		r.FindPackage = StubFinder(map[string]string{})
